@@ -27,6 +27,7 @@ THEOREMS = [
     "Nix.C15.C15_commutes_whole",
     "Nix.C15.C15_view_formula",
     "Nix.C15.C15_invalid_view_empty",
+    "Nix.C15.C15_read_total",
 ]
 ASSUMPTIONS = [
     "values that are doubles in Python are exact rationals in the model: astype(double) is the identity and the "
